@@ -1965,6 +1965,23 @@ def gen_c06(repo):
         raise NotTranslatable('first_of')
     if ast.unparse(single_return(rdd, 'isEmpty', [])) != 'not self.partitions() or len(self.take(1)) == 0':
         raise NotTranslatable('isEmpty')
+    # PartitionwiseSampledRDD.compute: a generator expression that pulls EVERY element of the parent and repeats it as often as
+    # the sampler draws (no short cut for an expectation of zero)
+    ps = find_class(tree, 'PartitionwiseSampledRDD')
+    sc_ = [n for n in ps.body if isinstance(n, ast.FunctionDef) and n.name == 'compute']
+    if len(sc_) != 1 or [a.arg for a in sc_[0].args.args] != ['self', 'split', 'task_context']:
+        raise NotTranslatable('PartitionwiseSampledRDD.compute')
+    sb = body_of(sc_[0])
+    if len(sb) != 2 or ast.unparse(sb[0]) != 'rng = TaskRandom(self.seed + split.index)' or not isinstance(sb[1], ast.Return):
+        raise NotTranslatable('PartitionwiseSampledRDD.compute shape')
+    ge = sb[1].value
+    if not (isinstance(ge, ast.GeneratorExp) and len(ge.generators) == 2 and not any(g.ifs or g.is_async for g in ge.generators)
+            and ast.unparse(ge.generators[0].iter) == 'self.prev.compute(split, task_context._create_child())'
+            and isinstance(ge.generators[0].target, ast.Name)
+            and ast.unparse(ge.generators[1].iter) == 'range(self.sampler(%s, rng))' % ge.generators[0].target.id
+            and ast.unparse(ge.elt) == ge.generators[0].target.id):
+        raise NotTranslatable('the sampling stage is not a generator expression over every element of the parent: ' + ast.unparse(ge)[:80])
+    sample_t = 'lsample draws x'
     out = ('open PysparklingVerif.Lazy\n\n'
            '/-- `MapF.__call__(tc, i, x)` (the stage of `map`, hence of `keyBy` / `keys` / `values`): a generator expression over the upstream -/\n'
            'def mapStage {α : Type} (k : Nat) (f : α → α) (x : LStream α) : LStream α := %s\n'
@@ -1972,6 +1989,9 @@ def gen_c06(repo):
            'def filterStage {α : Type} (k : Nat) (f : α → Bool) (x : LStream α) : LStream α := %s\n'
            '/-- the stage of `flatMap` -/\n'
            'def flatMapStage {α : Type} (k : Nat) (f : α → List α) (x : LStream α) : LStream α := %s\n\n'
+           '/-- `PartitionwiseSampledRDD.compute`: `(x for x in <parent> for _ in range(self.sampler(x, rng)))`; `draws` are the numbers the '
+           'seeded sampler yields for the elements, in order -/\n'
+           'def sampleStage {α : Type} (draws : List Nat) (x : LStream α) : LStream α := %s\n\n'
            '/-- `MapPartitionsRDD.compute(split, tc)`: the stage applied to the parent\'s iterator of the same split, which is handed over unevaluated -/\n'
            'def compute {α : Type} (stage : LStream α → LStream α) (prevCompute : LStream α) : LStream α := stage prevCompute\n\n'
            '/-- `first_of(iterable)`: `for element in iterable: return element` pulls one output (no output: ValueError) -/\n'
@@ -1983,9 +2003,9 @@ def gen_c06(repo):
            '/-- `isEmpty()`: `not self.partitions() or len(self.take(1)) == 0` - calls and answer -/\n'
            'def isEmpty {α : Type} (l : List (LStream α)) : List (Ev α) × Bool :=\n'
            '  if l.isEmpty then ([], true) else ((takeHandler 1 l).1, (takeHandler 1 l).2.length == 0)\n'
-           % (map_t, filter_t, flat_t, take_t, first_t))
+           % (map_t, filter_t, flat_t, sample_t, take_t, first_t))
     return ('pysparkling/rdd.py (RDD.map / MapF, filter, flatMap, keyBy, keys, values: the generator expressions; MapPartitionsRDD.compute; '
-            'take, first / first_of, isEmpty: task function and result handler)'), out
+            'PartitionwiseSampledRDD.compute; take, first / first_of, isEmpty: task function and result handler)'), out
 
 
 # ---- C05: CacheManager, TimedCacheManager, PersistedRDD.compute ------------------------------------
